@@ -5,6 +5,14 @@
   Mathlib-free, total, structurally recursive.  `none` of an `Option` result
   always stands for "the real code raises `ValueError`".
 
+  Python's `int(frequency)` (io.py:61) is a PARAMETER `intOf : Str → Option Int`
+  of the reader and the counters (`parseLineWith`, `parseFileWith`,
+  `cuesOutcomesWith`); the functions without `With` are the instance `pyInt`
+  (signs, surrounding white space, single underscores between digits, ASCII
+  digits, the 4300-digit limit of CPython ≥ 3.11) which the driver runs.
+  `step = 0` (`itertools.islice`) and `n_jobs = 0` (`multiprocessing.Pool`)
+  raise `ValueError`: explicit `none`.
+
   What is *not* modelled (trusted base): gzip and the UTF-8 codec (identity),
   `str.split()` without argument, `str.strip()` without argument and
   `str.lower()` (handed to the model as explicit per-input tables).
@@ -90,9 +98,17 @@ def everyNth {α : Type} (step : Nat) : Nat → List α → List α
   | 0, x :: xs => x :: everyNth step (step - 1) xs
   | k + 1, _ :: xs => everyNth step k xs
 
-/-- `itertools.islice(xs, start, None, step)` for `step ≥ 1` (Python raises
-    `ValueError` for `step = 0`; every theorem carries `1 ≤ step`). -/
+/-- `itertools.islice(xs, start, None, step)` for `step ≥ 1`.  For `step = 0`
+    Python raises `ValueError` ("Step for islice() must be a positive integer or
+    None"): see `strideE`; `stride _ 0` itself is a junk value that no theorem
+    relies on (every theorem about `stride` carries `1 ≤ step`, the readers go
+    through the `step = 0` test of `parseFileWith`). -/
 def stride {α : Type} (start step : Nat) (xs : List α) : List α := everyNth step start xs
+
+/-- `list(itertools.islice(xs, start, None, step))` with its error: `none` =
+    `ValueError` at `step = 0`. -/
+def strideE {α : Type} (start step : Nat) (xs : List α) : Option (List α) :=
+  if step = 0 then none else some (stride start step xs)
 
 /-! ## Writer: `events_to_file` (io.py:67-127) -/
 
@@ -164,10 +180,9 @@ def eventOfStrings (cues outcomes : Str) : TEvent := ⟨splitOn US cues, splitOn
 def digitVal (c : Char) : Option Nat :=
   if '0' ≤ c ∧ c ≤ '9' then some (c.toNat - '0'.toNat) else none
 
-/-- `int(frequency)` for a canonical non-negative decimal literal (ASCII digits
-    only, non-empty); everything else is `ValueError` in the model.  (Python's
-    `int` also accepts signs, surrounding white space, `_` and non-ASCII
-    digits; files with such a third column are outside the modelled domain.) -/
+/-- the canonical non-negative decimal literals: ASCII digits only, non-empty
+    (`none` otherwise).  A building block of `pyInt`; on its own it is `int()`
+    only on `[0-9]+` of at most 4300 digits. -/
 def parseNat? (s : Str) : Option Nat :=
   match s with
   | [] => none
@@ -175,16 +190,77 @@ def parseNat? (s : Str) : Option Nat :=
                     | some a, some d => some (a * 10 + d)
                     | _, _ => none) (some 0)
 
+/-- what `int()` strips at both ends: the characters with `c.isspace()` except
+    U+001C..U+001F (enumerated over all code points of CPython 3.12: exactly the
+    `c` with `int(c + '5') == 5` that are neither digits nor signs) -/
+def pyIsSpace (c : Char) : Bool :=
+  let n := c.toNat
+  (9 ≤ n && n ≤ 13) || n == 32 || n == 0x85 || n == 0xA0 || n == 0x1680 ||
+  (0x2000 ≤ n && n ≤ 0x200A) || n == 0x2028 || n == 0x2029 || n == 0x202F || n == 0x205F || n == 0x3000
+
+/-- remove the underscores of `1_000`; `none` when one is at the end or
+    follows another (`int('1_')`, `int('1__0')`: `ValueError`) -/
+def dropUS : Str → Option Str
+  | [] => some []
+  | c :: r =>
+    if c = '_' then
+      match r with
+      | [] => none
+      | d :: _ => if d = '_' then none else dropUS r
+    else (dropUS r).map (c :: ·)
+
+/-- CPython's default `sys.get_int_max_str_digits()` (3.11+): `int()` of more
+    digit characters raises `ValueError` -/
+def intMaxStrDigits : Nat := 4300
+
+/-- an optional sign: `(negative?, rest)` -/
+def splitSign : Str → Bool × Str
+  | '-' :: r => (true, r)
+  | '+' :: r => (false, r)
+  | s => (false, s)
+
+/-- the digits part: no leading underscore, single underscores between digits,
+    at most 4300 digits, ASCII digits only -/
+def natOfBody (body : Str) : Option Nat :=
+  match body with
+  | '_' :: _ => none
+  | _ =>
+    match dropUS body with
+    | none => none
+    | some ds => if intMaxStrDigits < ds.length then none else parseNat? ds
+
+/-- **the instance of `int(s)` the driver runs**: optional white space at both
+    ends, an optional sign, ASCII digits with single underscores between them,
+    at most 4300 digits; `none` = `ValueError`.  It is Python's `int` on every
+    string without non-ASCII decimal digits (Python also accepts every Unicode
+    `Nd` digit, e.g. full-width `２`; for those the driver takes a
+    Python-supplied table, `intOfTable`).  All theorems are stated for an
+    arbitrary `intOf`. -/
+def pyInt (s : Str) : Option Int :=
+  let p := splitSign (strip pyIsSpace s)
+  (natOfBody p.2).map fun n => if p.1 then -(n : Int) else (n : Int)
+
+/-- `int` given by a Python-supplied table first (`[(s, int(s) or ValueError)]`),
+    `pyInt` for strings the table lacks. -/
+def intOfTable (tbl : List (Str × Option Int)) (s : Str) : Option Int :=
+  match tbl.find? (fun p => p.1 == s) with
+  | some p => p.2
+  | none => pyInt s
+
 /-- one line (io.py:53-62): 2 or 3 tab-separated entries, the third is the
-    repetition count. `none` = `ValueError` (unpacking or `int`). -/
-def parseLine (line : Str) : Option (List TEvent) :=
+    repetition count `int(frequency)`; `for i in range(int(frequency))` yields
+    the event `max(int(frequency), 0)` times — a NEGATIVE frequency gives no
+    event and no error.  `none` = `ValueError` (unpacking or `int`). -/
+def parseLineWith (intOf : Str → Option Int) (line : Str) : Option (List TEvent) :=
   match splitOn TAB (stripLF line) with
   | [c, o] => some [⟨splitOn US c, splitOn US o⟩]
   | [c, o, f] =>
-    match parseNat? f with
-    | some k => some (List.replicate k ⟨splitOn US c, splitOn US o⟩)
+    match intOf f with
+    | some v => some (List.replicate v.toNat ⟨splitOn US c, splitOn US o⟩)
     | none => none
   | _ => none
+
+def parseLine (line : Str) : Option (List TEvent) := parseLineWith pyInt line
 
 /-- run `f` on every element, concatenate the results; the first failure makes
     the whole thing fail (a generator consumed completely by `list(...)` or by
@@ -197,15 +273,23 @@ def collectAll {α β : Type} (f : α → Option (List β)) : List α → Option
     | _, _ => none
 
 /-- all lines or `ValueError`. -/
-def parseLines (ls : List Str) : Option (List TEvent) := collectAll parseLine ls
+def parseLinesWith (intOf : Str → Option Int) (ls : List Str) : Option (List TEvent) :=
+  collectAll (parseLineWith intOf) ls
+
+def parseLines (ls : List Str) : Option (List TEvent) := parseLinesWith pyInt ls
 
 /-- body lines: `event_file.readline()` skips the header (io.py:51). -/
 def bodyLines (content : Str) : List Str := (fileLines content).drop 1
 
-/-- `list(events_from_file(path, start=start, step=step))`. Lines outside the
-    slice are never looked at (they cannot raise). -/
+/-- `list(events_from_file(path, start=start, step=step))`.  `step = 0`:
+    `islice` raises `ValueError` (at the first `next`, whatever the file is).
+    Lines outside the slice are never looked at (they cannot raise). -/
+def parseFileWith (intOf : Str → Option Int) (start step : Nat) (content : Str) : Option (List TEvent) :=
+  if step = 0 then none
+  else parseLinesWith intOf (stride start step (bodyLines content))
+
 def parseFile (start step : Nat) (content : Str) : Option (List TEvent) :=
-  parseLines (stride start step (bodyLines content))
+  parseFileWith pyInt start step content
 
 /-- what the file format does to a token list: an empty list is written as an
     empty field, which is read back as the one token `""`. -/
@@ -261,22 +345,28 @@ def jobCuesOutcomes (es : List TEvent) : CO :=
 def mergeCO (acc r : CO) : CO := ⟨acc.n + r.n, cMerge acc.cues r.cues, cMerge acc.outcomes r.outcomes⟩
 
 /-- one round of the merge loop: the result of job `k`, or the error. -/
-def coStep (n : Nat) (content : Str) (acc : Option CO) (k : Nat) : Option CO :=
-  match acc, parseFile k n content with
+def coStepWith (intOf : Str → Option Int) (n : Nat) (content : Str) (acc : Option CO) (k : Nat) : Option CO :=
+  match acc, parseFileWith intOf k n content with
   | some a, some es => some (mergeCO a (jobCuesOutcomes es))
   | _, _ => none
 
 /-- `cues_outcomes(path, n_jobs=n)`: job `k` reads
     `events_from_file(path, start=k, step=n)`; any job raising makes
-    `starmap` raise. -/
-def cuesOutcomes (n : Nat) (content : Str) : Option CO :=
-  (List.range n).foldl (coStep n content) (some ⟨0, [], []⟩)
+    `starmap` raise.  `n_jobs = 0`: `multiprocessing.Pool(0)` raises
+    `ValueError` ("Number of processes must be at least 1"). -/
+def cuesOutcomesWith (intOf : Str → Option Int) (n : Nat) (content : Str) : Option CO :=
+  if n = 0 then none
+  else (List.range n).foldl (coStepWith intOf n content) (some ⟨0, [], []⟩)
+
+def cuesOutcomes (n : Nat) (content : Str) : Option CO := cuesOutcomesWith pyInt n content
 
 /-- the direct count of a file: one pass over all events. -/
-def directCuesOutcomes (content : Str) : Option CO :=
-  match parseFile 0 1 content with
+def directCuesOutcomesWith (intOf : Str → Option Int) (content : Str) : Option CO :=
+  match parseFileWith intOf 0 1 content with
   | some es => some (jobCuesOutcomes es)
   | none => none
+
+def directCuesOutcomes (content : Str) : Option CO := directCuesOutcomesWith pyInt content
 
 /-! ## `count.words_symbols` (count.py:90-162) -/
 
@@ -345,5 +435,22 @@ def wordsSymbols (lower : Option (List (Str × Str))) (n : Nat) (lines : List (L
 
 def directWordsSymbols (lower : Option (List (Str × Str))) (lines : List (List Str)) : Option WS :=
   jobWordsSymbols lower lines
+
+/-- the two ways `words_symbols` fails in the model: `ValueError` of
+    `multiprocessing.Pool(0)`, and a word the Python-supplied `lower` table
+    lacks (a harness matter, not a behaviour of pyndl) -/
+inductive WSErr where
+  | value
+  | missingLower
+deriving Repr, BEq, DecidableEq
+
+/-- `words_symbols` with its error at `n_jobs = 0` (where `wordsSymbols`, a fold
+    over the empty range, would return two empty counters) -/
+def wordsSymbolsE (lower : Option (List (Str × Str))) (n : Nat) (lines : List (List Str)) :
+    Except WSErr WS :=
+  if n = 0 then .error .value
+  else match wordsSymbols lower n lines with
+    | some r => .ok r
+    | none => .error .missingLower
 
 end Pyndl.Text
